@@ -165,7 +165,7 @@ def run(ctx):
 
 MUTANTS = [
     Mutant('array-before-procedure', FILE,
-           "        if _type and isinstance(_type.dtype, ProcedureType):\n            return ProcedureSymbol(**kwargs)\n",
+           "        if _type and isinstance(_type.dtype, ProcedureType):\n            # This is the name in a function/subroutine call\n            return ProcedureSymbol(**kwargs)\n",
            "", expect=('R1', 'tier-order'), quick=True),
     Mutant('getter-caches', FILE, "        if self.scope is None:\n            return self._type\n        return self._lookup_type(self.scope)",
            "        if self.scope is None or self._type is not None:\n            return self._type\n        return self._lookup_type(self.scope)",
